@@ -139,6 +139,10 @@ func (p *Printer) object(o *Object) {
 	p.line("%s %s {", kw, o.Name)
 	p.ind++
 	p.desc()
+	if o.PSM != nil {
+		p.line("entity.entity = %s", Quote(o.PSM.Entity))
+		p.line("entity.part = %s", Quote(strings.ToUpper(o.PSM.Part)))
+	}
 	for _, pr := range o.Props {
 		p.prop(pkw, pr, false)
 	}
@@ -158,7 +162,9 @@ func (p *Printer) enum(e *Enum) {
 		p.line("prefix = %s", Quote(e.Prefix))
 	}
 	for _, o := range e.Opts {
-		if p.chance(1, 8) {
+		if v := e.Nums[o]; v > 0 {
+			p.option("option", o, v)
+		} else if p.chance(1, 8) {
 			p.line("option %s | described", o)
 		} else {
 			p.line("option %s", o)
@@ -176,6 +182,16 @@ type bodyItem struct {
 	props []*Prop // child properties
 	pkw   string
 	opts  []string // enum options
+	nums  Nums
+}
+
+// option prints an enum option / entity status that states its own number.
+func (p *Printer) option(kw, name string, num int32) {
+	p.line("%s %s {", kw, name)
+	p.ind++
+	p.line("number = %d", num)
+	p.ind--
+	p.line("}")
 }
 
 func refString(t *TRef) string {
@@ -296,7 +312,7 @@ func (p *Printer) fieldSpec(f *Field, prefix string, entityKey bool) (string, []
 			if t.Prefix != "" {
 				attr("%senum.prefix = %s", prefix, Quote(t.Prefix))
 			}
-			body = append(body, bodyItem{opts: t.Opts})
+			body = append(body, bodyItem{opts: t.Opts, nums: t.Nums})
 			return f.Kind, body
 		}
 	case FArray, FMap:
@@ -378,7 +394,11 @@ func (p *Printer) propBody(head string, pre []string, body []bodyItem) {
 			p.line("%s", b.text)
 		case b.opts != nil:
 			for _, o := range b.opts {
-				p.line("option %s", o)
+				if v := b.nums[o]; v > 0 {
+					p.option("option", o, v)
+				} else {
+					p.line("option %s", o)
+				}
 			}
 		default:
 			for _, c := range b.props {
@@ -496,7 +516,11 @@ func (p *Printer) entity(e *Entity) {
 		p.prop("data", d, false)
 	}
 	for _, s := range e.Statuses {
-		p.line("status %s", s)
+		if v := e.StatusNums[s]; v > 0 {
+			p.option("status", s, v)
+		} else {
+			p.line("status %s", s)
+		}
 	}
 	for _, ev := range e.Events {
 		p.line("event %s {", ev.Name)
